@@ -15,8 +15,135 @@ def boundary_step(chk):
                                  "and sense, symbolic position / speed / time stamp")
     chk.register_replay("occ", c11.replay_occ)
     tasks = [((1.0, 2.0), (4, 5), 1, 2, 0, False, a, "boundary") for a in range(2)]
+    tasks += [((2.0, 1.0), (5, 4), 1, 2, 0, False, a, "boundary") for a in range(2)]
     tasks += [((1.0,), (6,), 1, 2, 0, False, 0, "boundary")]
     chk.explore_parallel(tasks, c11.explore)
+    time_slice(chk)
+
+
+def explore_time_slice(task):
+    """The real BasicEventHandler._time_slice_unit on a symbolic moving unit in a box of pairwise different, symbolic
+    side lengths: the new position is the old one advanced by velocity times elapsed time modulo the box, lies in the
+    box, the time stamp becomes the event time, velocity/identifier/charge are untouched."""
+    import z3
+    from vlib import symx, solve, harness, jf
+    import jellyfysh.base.time as time_mod
+    from jellyfysh.base.unit import Unit
+    from jellyfysh.event_handler.cell_boundary_event_handler import CellBoundaryEventHandler
+    box = tuple(task)
+    dim = len(box)
+    queries, npaths = [], 0
+    tag = "time-slice/box%s" % "x".join(map(str, box))
+    L = symx.SymReal.lift
+
+    def run(ex):
+        # concrete side lengths (as in a real run, where they are floats of the configuration file): the modulo
+        # arithmetic stays linear; every ordering of the sides is one instance
+        lengths = [symx.SymReal(symx.realval(b)) for b in box]
+        jf.init_hypercuboid([float(b) for b in box])
+        undo = symx.patch_module(time_mod, isinf=symx.MathShim.isinf)
+        try:
+            pos = [ex.real("x%d" % d) for d in range(dim)]
+            vel = [ex.real("v%d" % d) for d in range(dim)]
+            for d in range(dim):
+                ex.axiom(z3.And(pos[d].t >= 0, pos[d].t < lengths[d].t))
+            stamp, stamp_val = jf.sym_time(ex, "t0")
+            event, event_val = jf.sym_time(ex, "t1")
+            ex.axiom(event_val >= stamp_val)
+            unit = Unit((0,), list(pos), charge={"q": 1.0}, velocity=list(vel), time_stamp=stamp)
+            h = CellBoundaryEventHandler()
+            h._event_time = event
+            h._time_slice_unit(unit)
+            dt = event_val - stamp_val
+            ex.oblige("time-sliced-position-is-the-old-one-advanced-by-velocity-times-elapsed-time-modulo-the-box",
+                      z3.And(*[jf.zmod_eq(L(unit.position[d]), pos[d].t + vel[d].t * dt, lengths[d].t)
+                               for d in range(dim)]))
+            ex.oblige("time-sliced-position-in-the-box",
+                      z3.And(*[z3.And(L(unit.position[d]) >= 0, L(unit.position[d]) < lengths[d].t) for d in range(dim)]))
+            ex.oblige("time-stamp-becomes-the-event-time", jf.time_value(unit.time_stamp) == event_val)
+            ex.oblige("velocity-untouched", z3.And(*[L(unit.velocity[d]) == vel[d].t for d in range(dim)]))
+        finally:
+            undo()
+            jf.reset_settings()
+
+    ex = symx.Explorer(feas_timeout_ms=20000, max_paths=5000)
+    for path in ex.paths(run):
+        npaths += 1
+        if path.exception is not None:
+            queries.append(solve.Query("%s/p%d/no-exception(%s: %s)" % (tag, npaths, type(path.exception).__name__,
+                                                                        str(path.exception)[:60]),
+                                       solve.to_smt2(path.hyp()), expect="unsat", timeout_s=60,
+                                       info={"exception": repr(path.exception), "task": list(task),
+                                             "replay": "time-slice"}, group="time-slice/no-exception"))
+            continue
+        queries += harness.path_queries(path, prefix="%s/p%d/" % (tag, npaths), group_prefix="time-slice/",
+                                        timeout_s=120, solver="portfolio", twin_group=tag,
+                                        extra_info={"task": list(task), "replay": "time-slice"})
+    for q in queries:
+        if q.expect == "sat":
+            q.info["twin_lenient_unknown"] = True
+    return {"paths": npaths, "queries": queries, "part": "time-slice"}
+
+
+def replay_time_slice(model, q):
+    """Native replay with floats in the real hypercuboid setting."""
+    import fractions
+    from vlib import jf
+    from jellyfysh.base.time import Time
+    from jellyfysh.base.unit import Unit
+    from jellyfysh.event_handler.cell_boundary_event_handler import CellBoundaryEventHandler
+    box = q.info["task"]
+    dim = len(box)
+
+    def g(name, default=0.0):
+        try:
+            return float(fractions.Fraction(model.get(name, default)))
+        except Exception:  # noqa
+            return float(default)
+    lengths = [float(b) for b in box]
+    pos = [g("x%d" % d) for d in range(dim)]
+    vel = [g("v%d" % d) for d in range(dim)]
+    t0 = Time(float(int(g("t0_q"))), g("t0_r"))
+    t1 = Time(float(int(g("t1_q"))), g("t1_r"))
+    jf.init_hypercuboid(lengths)
+    try:
+        unit = Unit((0,), list(pos), charge={"q": 1.0}, velocity=list(vel), time_stamp=t0)
+        h = CellBoundaryEventHandler()
+        h._event_time = t1
+        dt = t1 - Time(t0.quotient, t0.remainder)
+        try:
+            h._time_slice_unit(unit)
+        except Exception as exc:  # noqa
+            return {"reproduced": True, "what": "_time_slice_unit raised %r in a box %s" % (exc, lengths),
+                    "data": {"kind": "time-slice", "task": q.info["task"], "model": {k: str(v) for k, v in model.items()}}}
+        problems = []
+        for d in range(dim):
+            want = pos[d] + vel[d] * dt
+            diff = (unit.position[d] - want) / lengths[d]
+            if abs(diff - round(diff)) * lengths[d] > 1e-9 * max(1.0, abs(want)):
+                problems.append("component %d is %r, the old position advanced is %r (box side %r)"
+                                % (d, unit.position[d], want, lengths[d]))
+            if not 0.0 <= unit.position[d] < lengths[d]:
+                problems.append("component %d = %r lies outside [0, %r)" % (d, unit.position[d], lengths[d]))
+        if problems:
+            return {"reproduced": True,
+                    "what": "_time_slice_unit in a box %s, position %s velocity %s elapsed %r: %s"
+                            % (lengths, pos, vel, dt, "; ".join(problems[:3])),
+                    "data": {"kind": "time-slice", "task": q.info["task"], "model": {k: str(v) for k, v in model.items()}}}
+        return {"reproduced": False, "what": "time slice fine natively"}
+    finally:
+        jf.reset_settings()
+
+
+def time_slice(chk):
+    from jellyfysh.event_handler.abstracts.abstracts import BasicEventHandler
+    chk.encoded(BasicEventHandler._time_slice_unit)
+    boxes = [(1.0, 2.5), (2.5, 1.0), (1.0, 1.5, 2.5), (2.5, 1.5, 1.0), (1.5, 2.5, 1.0), (1.0, 1.0, 1.0)]
+    chk.bound(time_slice="hypercuboid boxes %s (every ordering pattern of pairwise different sides in 2-D, three of "
+                         "them in 3-D, and the cube), symbolic position in the box, arbitrary velocity vector, symbolic "
+                         "time stamp <= event time" % (boxes,))
+    chk.register_replay("time-slice", replay_time_slice)
+    chk.explore_parallel(boxes, explore_time_slice)
 
 
 if __name__ == "__main__":
